@@ -71,6 +71,10 @@ def build(targets, log):
     fcntl.flock(lock, fcntl.LOCK_EX)
     try:
         ok, msg = common.regenerate_all()
+        if not ok:
+            # only the generated files this property's Coq files import concern it
+            mine = common.gen_failures_for([t[:-1] for t in targets])      # Props/C02.vo -> Props/C02.v
+            ok, msg = (not mine), ("; ".join(mine.values()) if mine else "ok")
         if common.write_coqproject() or not os.path.exists(os.path.join(common.COQ, "Makefile")):
             subprocess.run(["coq_makefile", "-f", "_CoqProject", "-o", "Makefile"], cwd=common.COQ,
                            capture_output=True, text=True)
